@@ -260,6 +260,17 @@ impl Transform {
         }
 
         while let Some(template) = iter.next() {
+            // A subtemplate followed by an ellipsis is repeated once per item its
+            // ellipsis variables matched, so it must contain such a variable:
+            // without one the expansion would never end.
+            if template != ellipsis
+                && iter.peek() == Some(&ellipsis)
+                && !Self::contains_expanded_variable(template, pattern)
+            {
+                return Err(InvalidSyntax(
+                    "ellipses must follow a pattern variable that is followed by ellipses in the pattern".into(),
+                ));
+            }
             match template {
                 Cell::Pair(_, _) => Self::check_template_syntax(template, pattern, ellipsis)?,
                 Cell::Symbol(_) => {
@@ -280,6 +291,17 @@ impl Transform {
             }
         }
         Ok(())
+    }
+
+    fn contains_expanded_variable(template: &Cell, pattern: &Pattern) -> bool {
+        match template {
+            Cell::Symbol(_) => pattern.is_expanded_variable(template),
+            Cell::Pair(car, cdr) => {
+                Self::contains_expanded_variable(car, pattern)
+                    || Self::contains_expanded_variable(cdr, pattern)
+            }
+            _ => false,
+        }
     }
 
     /// Transform
@@ -443,6 +465,7 @@ impl Transform {
             }
             Cell::Pair(_, _) => {
                 let mut v = vec![];
+                let improper = template.is_improper_list();
                 let mut template_iter = template.iter().peekable();
                 let mut template = template_iter.next().unwrap();
 
@@ -470,7 +493,21 @@ impl Transform {
                         }
                     };
                 }
-                Some(Cell::new_list(v))
+                // The iterator yields the tail of a dotted template as its last item
+                if improper {
+                    let tail = v.pop()?;
+                    if v.is_empty() {
+                        return Some(tail);
+                    }
+                    Some(Cell::new_improper_list(v, tail))
+                } else {
+                    Some(Cell::new_list(v))
+                }
+            }
+            Cell::Vector(vector) => {
+                // A vector template is instantiated like the list of its elements
+                let elements = self.expand(&Cell::new_list(vector.clone()), pattern, env)?;
+                Some(Cell::Vector(elements.into_iter().collect()))
             }
             cell => Some(cell.clone()),
         }
